@@ -697,7 +697,9 @@ class SigmaNumber(SigmaType):
             if not isfinite(f):
                 raise ValueError("Invalid number")
             i = int(init_number)
-            if i == f:
+            # An integer (also given as string) is kept as it is, because a float can't represent
+            # integers above 2**53 exactly.
+            if i == f or not isinstance(init_number, float):
                 self.number = i
             else:
                 self.number = f
